@@ -20,13 +20,17 @@ func c10(c *eng.Ctx, r *eng.Report) {
 		"R10.1 the handler's stack effect on every success exit equals the row's minStack/maxStack declaration and, for standard opcodes, the Yellow-Paper (δ,α) table embedded in the checker; " +
 		"R10.2 for the 25 straight-line word operations the uint256 method applied, the operand slots it is applied to (first pop / second pop / top), the slot receiving the result and the guard polarity equal a reference row written from the Yellow Paper and the uint256 API; " +
 		"R10.3 JUMP/JUMPI store to pc only on the accepting edge of validJumpdest, validJumpdest keeps its three conjuncts (range, ==JUMPDEST, isCode), and the halts/jumps/reverts/returns flags equal the reference table. " +
-		"Not decided: the 256-bit arithmetic itself (holiman/uint256), KECCAK, memory copy semantics, jump-dest bitmap construction."
+		"R10.4 the jump bitmap consulted is the running code's own: the frame-shared map is touched only under CodeHash != zero and keyed by c.CodeHash, every bitmap stored or consulted is codeBitmap(c.Code) or that entry, only isCode/NewContract write the two fields, and codeBitmap marks exactly the operands of PUSH1..PUSH32; " +
+		"R10.5 fresh memory is zero: Memory.store is assigned only in Resize and only as append(m.store, make([]byte, n)...), NewMemory returns a fresh object and Run takes one per frame. " +
+		"Not decided: the 256-bit arithmetic itself (holiman/uint256), KECCAK, memory copy semantics, the bit arithmetic of bitvec.set/set8."
 	r.Assume = []string{"holiman/uint256 v1.1.1 methods implement their documented semantics (z.Op(x,y) sets z = x op y)", "Yellow Paper (δ,α) table transcribed in rules/vmrows.go"}
 	rows := analyseRows(c, r, "R10.1")
 	c10Arity(c, r, rows)
 	c10Binding(c, r, rows)
 	c10Shuffles(c, r, rows)
 	c10Jumps(c, r, rows)
+	c10Bitmap(c, r)
+	c10Memory(c, r)
 }
 
 func c10Arity(c *eng.Ctx, r *eng.Report, rows []rowFx) {
@@ -427,5 +431,210 @@ func c10Jumps(c *eng.Ctx, r *eng.Report, rows []rowFx) {
 		r.Check(hasRange && hasJD && viaIsCode, rule, "vm.(*Contract).validJumpdest:conjuncts", c.Pos(vj.Pos()),
 			"validJumpdest accepts only when dest < len(code), code[dest] == JUMPDEST and isCode(dest)",
 			fmt.Sprintf("validJumpdest lost a conjunct (range=%v, ==JUMPDEST=%v, via isCode=%v)", hasRange, hasJD, viaIsCode))
+	}
+}
+
+// c10Bitmap: the bitmap consulted for a jump is the bitmap of the running
+// code. The map shared between frames is keyed by code hash, so it may be
+// read or written only when the contract has one (initcode has none).
+func c10Bitmap(c *eng.Ctx, r *eng.Report) {
+	const rule = "R10.4"
+	r.Min(rule, 4)
+	isCode := c.Func("vm", "(*Contract).isCode")
+	bm := c.Func("vm", "codeBitmap")
+	if !r.Anchor(isCode != nil && bm != nil, rule, "vm.(*Contract).isCode / vm.codeBitmap") {
+		return
+	}
+	// (a) shared-map accesses only under CodeHash != zero hash, keyed by c.CodeHash
+	nAcc, bad := 0, ""
+	var badPos token.Pos
+	for _, b := range isCode.Blocks {
+		for _, in := range b.Instrs {
+			var m, key ssa.Value
+			switch x := in.(type) {
+			case *ssa.Lookup:
+				m, key = x.X, x.Index
+			case *ssa.MapUpdate:
+				m, key = x.Map, x.Key
+			default:
+				continue
+			}
+			if !strings.HasSuffix(eng.Desc(m), ".jumpdests") {
+				continue
+			}
+			nAcc++
+			guarded := false
+			for _, cd := range eng.CondsAt(in) {
+				if bo, ok := cd.V.(*ssa.BinOp); ok {
+					x, y := bo.X, bo.Y
+					if _, isK := x.(*ssa.Const); isK {
+						x, y = y, x
+					}
+					if !strings.HasSuffix(eng.Desc(x), "c.CodeHash") {
+						continue
+					}
+					if k, isK := y.(*ssa.Const); isK && k.Value == nil { // zero value of common.Hash
+						if (bo.Op == token.NEQ && cd.True) || (bo.Op == token.EQL && !cd.True) {
+							guarded = true
+						}
+					}
+				}
+			}
+			if !guarded {
+				bad, badPos = "the frame-shared jumpdests map is accessed without first testing c.CodeHash != common.Hash{}: initcode (which has no code hash) would share one bitmap under the zero key, so a second initcode in the same call tree is checked against the first one's push-data layout", in.Pos()
+			} else if !strings.HasSuffix(eng.Desc(key), "c.CodeHash") {
+				bad, badPos = "the frame-shared jumpdests map is keyed by "+eng.Desc(key)+", not by the contract's own code hash", in.Pos()
+			}
+		}
+	}
+	r.Check(bad == "" && nAcc >= 2, rule, "isCode:shared-map", c.Pos(pick(badPos, isCode.Pos())), fmt.Sprintf("%d accesses to the shared map, all under CodeHash != zero and keyed by c.CodeHash", nAcc), "Contract.isCode: "+bad+fmt.Sprintf(" (%d accesses seen)", nAcc))
+	// (b) every bitmap that reaches c.analysis, the shared map or a codeSegment call is codeBitmap(c.Code) or the shared entry for c.CodeHash
+	okOrigin := func(v ssa.Value) bool {
+		d := eng.Desc(v)
+		return d == "vm.codeBitmap(c.Code)" || strings.HasSuffix(d, ".jumpdests[c.CodeHash]#0") || strings.HasSuffix(d, "c.analysis")
+	}
+	bad = ""
+	n := 0
+	check := func(v ssa.Value, pos token.Pos, what string) {
+		n++
+		// a local spilled through an alloc: look at what is stored into it
+		if u, ok := v.(*ssa.UnOp); ok {
+			if al, isA := u.X.(*ssa.Alloc); isA {
+				for _, ref := range *al.Referrers() {
+					if st, isSt := ref.(*ssa.Store); isSt && st.Addr == ssa.Value(al) && !okOrigin(st.Val) {
+						bad, badPos = what+" is "+eng.Desc(st.Val), pos
+					}
+				}
+				return
+			}
+		}
+		if al, isA := v.(*ssa.Alloc); isA {
+			for _, ref := range *al.Referrers() {
+				if st, isSt := ref.(*ssa.Store); isSt && st.Addr == ssa.Value(al) && !okOrigin(st.Val) {
+					bad, badPos = what+" is "+eng.Desc(st.Val), pos
+				}
+			}
+			return
+		}
+		if !okOrigin(v) {
+			bad, badPos = what+" is "+eng.Desc(v), pos
+		}
+	}
+	for _, b := range isCode.Blocks {
+		for _, in := range b.Instrs {
+			switch x := in.(type) {
+			case *ssa.Store:
+				if _, f := eng.FieldOf(x.Addr); f == "analysis" {
+					check(x.Val, x.Pos(), "the bitmap stored in c.analysis")
+				}
+			case *ssa.MapUpdate:
+				check(x.Value, x.Pos(), "the bitmap stored in the shared map")
+			case *ssa.Call:
+				if strings.HasSuffix(eng.CallName(&x.Call), "bitvec).codeSegment") {
+					check(x.Call.Args[0], x.Pos(), "the bitmap consulted")
+					if !isParamNamed(x.Call.Args[1], "udest") {
+						bad, badPos = "codeSegment is asked about "+eng.Desc(x.Call.Args[1])+", not the jump target", x.Pos()
+					}
+				}
+			}
+		}
+	}
+	retOK := true
+	for _, re := range eng.Returns(isCode) {
+		call, ok := eng.RetValue(re.Ret, 0).(*ssa.Call)
+		if !ok || !strings.HasSuffix(eng.CallName(&call.Call), "bitvec).codeSegment") {
+			retOK = false
+		}
+	}
+	r.Check(bad == "" && retOK && n >= 4, rule, "isCode:bitmap-origin", c.Pos(pick(badPos, isCode.Pos())), "every bitmap stored or consulted is codeBitmap(c.Code) or the shared entry of c.CodeHash; the answer is codeSegment(udest)", "Contract.isCode: "+bad+fmt.Sprintf(" (returns codeSegment on every path=%v)", retOK)+": a jump target is validated against a bitmap that is not this code's")
+	// (c) who writes Contract.analysis / Contract.jumpdests
+	for _, fn := range c.PkgFuncs("vm") {
+		if c.IsTestFunc(fn) {
+			continue
+		}
+		for _, f := range []string{"analysis", "jumpdests"} {
+			for _, st := range eng.FieldStores(fn, "vm.Contract", f) {
+				ok := fn == isCode || fn.Name() == "NewContract"
+				r.Check(ok, rule, "writer:Contract."+f+"<-"+eng.FuncName(fn), c.Pos(st.Pos()), "reviewed writer", eng.FuncName(fn)+" writes Contract."+f+": a frame could run against another code's jump bitmap")
+			}
+		}
+	}
+	// (d) codeBitmap marks exactly the PUSH1..PUSH32 operands
+	lo, hi, plus := false, false, false
+	for _, b := range bm.Blocks {
+		for _, in := range b.Instrs {
+			bo, ok := in.(*ssa.BinOp)
+			if !ok {
+				continue
+			}
+			k, isK := eng.ConstInt(bo.Y)
+			if !isK {
+				continue
+			}
+			switch {
+			case bo.Op == token.GEQ && k == 0x60:
+				lo = true
+			case bo.Op == token.LEQ && k == 0x7f:
+				hi = true
+			case bo.Op == token.SUB && k == 0x60:
+				for _, ref := range *bo.Referrers() {
+					if a, isA := ref.(*ssa.BinOp); isA && a.Op == token.ADD {
+						if k2, isK2 := eng.ConstInt(a.Y); isK2 && k2 == 1 {
+							plus = true
+						}
+					}
+				}
+			}
+		}
+	}
+	r.Check(lo && hi && plus, rule, "codeBitmap:push-range", c.Pos(bm.Pos()), "data bytes are the (op-PUSH1+1) bytes after each opcode in [PUSH1,PUSH32]", fmt.Sprintf("codeBitmap no longer marks exactly the operands of PUSH1..PUSH32 (op >= 0x60: %v, op <= 0x7f: %v, count = op-0x60+1: %v): a JUMPDEST byte inside push data becomes a valid target or a real JUMPDEST is rejected", lo, hi, plus))
+}
+
+// c10Memory: memory a frame has not written reads as zero. Memory.store grows
+// only by appending freshly made (zeroed) bytes, only Resize grows it, and
+// every frame starts from a freshly allocated Memory.
+func c10Memory(c *eng.Ctx, r *eng.Report) {
+	const rule = "R10.5"
+	r.Min(rule, 3)
+	resize := c.Func("vm", "(*Memory).Resize")
+	newMem := c.Func("vm", "NewMemory")
+	if !r.Anchor(resize != nil && newMem != nil, rule, "vm.(*Memory).Resize / vm.NewMemory") {
+		return
+	}
+	for _, fn := range c.PkgFuncs("vm") {
+		if c.IsTestFunc(fn) {
+			continue
+		}
+		for i, st := range eng.FieldStores(fn, "vm.Memory", "store") {
+			key := fmt.Sprintf("store-writer:%s#%d", eng.FuncName(fn), i)
+			if fn != resize {
+				r.Fail(rule, key, c.Pos(st.Pos()), eng.FuncName(fn)+" assigns Memory.store: only Resize may change the extent of memory (a truncated-and-reused buffer exposes an earlier frame's bytes)")
+				continue
+			}
+			v := st.(*ssa.Store).Val
+			ok := false
+			if call, isC := v.(*ssa.Call); isC && eng.CallName(&call.Call) == "builtin:append" {
+				if _, isMk := call.Call.Args[1].(*ssa.MakeSlice); isMk && strings.HasSuffix(eng.Desc(call.Call.Args[0]), "m.store") {
+					ok = true
+				}
+			}
+			r.Check(ok, rule, key, c.Pos(st.Pos()), "memory grows by appending make([]byte, n)", "Memory.Resize sets store to "+eng.Desc(v)+" instead of append(m.store, make([]byte, n)...): re-slicing into spare capacity (or any other growth) exposes bytes that were never zeroed, so MLOAD/KECCAK/RETURN over fresh memory is not zero")
+		}
+	}
+	okNew := true
+	for _, re := range eng.Returns(newMem) {
+		if _, isAlloc := eng.RetValue(re.Ret, 0).(*ssa.Alloc); !isAlloc {
+			okNew = false
+		}
+	}
+	r.Check(okNew, rule, "NewMemory:fresh", c.Pos(newMem.Pos()), "returns a freshly allocated Memory", "NewMemory no longer returns a fresh &Memory{} (e.g. a pooled object): a frame may start with another frame's buffer")
+	run := c.Func("vm", "(*EVMInterpreter).Run")
+	if r.Anchor(run != nil, rule, "vm.(*EVMInterpreter).Run") {
+		n := 0
+		for _, call := range callsNamed(run, "vm.NewMemory") {
+			_ = call
+			n++
+		}
+		r.Check(n == 1, rule, "Run:own-memory", c.Pos(run.Pos()), "each frame allocates its memory with NewMemory()", fmt.Sprintf("EVMInterpreter.Run calls NewMemory %d times (one per frame expected)", n))
 	}
 }
